@@ -6,6 +6,7 @@
 # see : https://www.elastic.co/guide/en/elasticsearch/reference/current/query-dsl-query-string-query.html  # noqa: E501
 # https://lucene.apache.org/core/3_6_0/queryparsersyntax.html
 import re
+from decimal import InvalidOperation
 
 import ply.lex as lex
 import ply.yacc as yacc
@@ -353,15 +354,29 @@ def p_quoting(p):
     p[0] = p[1]
 
 
+def _number_error(p, index, error):
+    """a number after ~ or ^ that can't be converted is a syntax error"""
+    token = p[index]
+    raise ParseSyntaxError(
+        "Syntax error in input : invalid number '%s' at position %d!" % (token.value, token.pos)
+    ) from error
+
+
 def p_proximity(p):
     '''unary_expression : PHRASE APPROX'''
-    p[0] = Proximity(p[1], p[2].value)
+    try:
+        p[0] = Proximity(p[1], p[2].value)
+    except ValueError as e:
+        _number_error(p, 2, e)
     head_tail.post_unary(p)
 
 
 def p_boosting(p):
     '''unary_expression : unary_expression BOOST'''
-    p[0] = Boost(p[1], p[2].value)
+    try:
+        p[0] = Boost(p[1], p[2].value)
+    except InvalidOperation as e:
+        _number_error(p, 2, e)
     head_tail.post_unary(p)
 
 
@@ -372,7 +387,10 @@ def p_terms(p):
 
 def p_fuzzy(p):
     '''unary_expression : TERM APPROX'''
-    p[0] = Fuzzy(p[1], p[2].value)
+    try:
+        p[0] = Fuzzy(p[1], p[2].value)
+    except InvalidOperation as e:
+        _number_error(p, 2, e)
     head_tail.post_unary(p)
 
 
